@@ -151,11 +151,11 @@ def name2(ctx) -> List[Ob]:
             skey = f"{mname}: " + A.alpha_key(s, keep=("self",))
             swhere = ctx.where(m, s)
             if isinstance(s, ast.AugAssign):
-                okv = isinstance(s.op, ast.Add) and isinstance(s.value, ast.Constant) and s.value.value == 1
+                okv = isinstance(s.op, ast.Add) and isinstance(s.value, ast.Constant) and isinstance(s.value.value, int) and s.value.value >= 1
                 idx_name = None
             else:
                 v = s.value
-                okv = isinstance(v, ast.BinOp) and isinstance(v.op, ast.Add) and isinstance(v.right, ast.Constant) and v.right.value == 1 and isinstance(v.left, ast.Name)
+                okv = isinstance(v, ast.BinOp) and isinstance(v.op, ast.Add) and isinstance(v.right, ast.Constant) and isinstance(v.right.value, int) and not isinstance(v.right.value, bool) and v.right.value >= 1 and isinstance(v.left, ast.Name)
                 idx_name = v.left.id if okv else None
             if not okv:
                 out.append(bad("NAME-2", m.qualname, skey, swhere, f"the counter is set to {A.unparse(s.value)}, not to index + 1: names repeat or the counter does not advance"))
